@@ -372,6 +372,14 @@ def setup():
         if rc != 0:
             print(out[-3000:])
             return rc
+    # host build of the browser storage layer used by C27
+    if os.path.isdir(f"{VERIF}/harness-wasm"):
+        subprocess.run(["cp", "/repo/Cargo.lock", f"{VERIF}/harness-wasm/Cargo.lock"])
+        with BuildLock():
+            rc, out = sh(["cargo", "build", "--offline"], cwd=f"{VERIF}/harness-wasm", timeout=7200, log=log)
+        if rc != 0:
+            print(out[-3000:])
+            return rc
     # the CLI binary used by C25 (built from /repo into the harness target directory)
     with BuildLock():
         rc, out = sh(["cargo", "build", "--offline", "-p", "searchlite-cli", "--manifest-path", os.environ.get("VERIF_REPO", "/repo") + "/Cargo.toml",
